@@ -36,11 +36,18 @@ pub struct Item {
     pub inject_at: Option<u64>,
     pub depth0: usize,
     pub yield_at: Vec<u64>,
+    /// preemption points in the finer numbering that also counts heap-cell accesses (inside
+    /// built-ins, comparisons, stringification)
+    #[serde(default)]
+    pub yield_heap_at: Vec<u64>,
+    /// dense preemption: yield at every n-th hook point (0 = off)
+    #[serde(default)]
+    pub yield_every: u64,
 }
 
 impl Item {
     fn plain(role: Role, stmt: Stmt) -> Item {
-        Item { role, stmt, inject_at: None, depth0: 0, yield_at: vec![] }
+        Item { role, stmt, inject_at: None, depth0: 0, yield_at: vec![], yield_heap_at: vec![], yield_every: 0 }
     }
 }
 
@@ -102,10 +109,12 @@ fn run_thread(plan: ThreadPlan, inputs_json: String, y: &Yielder) -> ThreadOut {
             let cfg_inject = it.inject_at;
             let cfg_depth = it.depth0;
             let cfg_yield = it.yield_at.clone();
+            let cfg_yield_heap = it.yield_heap_at.clone();
+            let cfg_every = it.yield_every;
             let before: BTreeSet<String> = if matches!(it.role, Role::P(_)) { sess.root().keys().cloned().collect() } else { BTreeSet::new() };
             let outs = sess.eval_source(
                 &src,
-                &mut |_| EvalCfg { depth0: cfg_depth, inject_at: cfg_inject, yield_at: cfg_yield.clone() },
+                &mut |_| EvalCfg { depth0: cfg_depth, inject_at: cfg_inject, yield_at: cfg_yield.clone(), yield_heap_at: cfg_yield_heap.clone(), yield_every: cfg_every },
                 &mut |_, _, _| {},
             );
             let o = outs.into_iter().next().unwrap_or(Outcome {
@@ -117,6 +126,7 @@ fn run_thread(plan: ThreadPlan, inputs_json: String, y: &Yielder) -> ThreadOut {
                 fault_fired: None,
                 depth_error: false,
                 yields: 0,
+                output_error: false,
             });
             match &it.role {
                 Role::P(_) => {
@@ -292,9 +302,13 @@ pub fn judge(sc: &Scenario, ex: &Exec, reference: &Exec) -> Option<Viol> {
         }
     }
     // EvalTwice: every re-evaluation agrees with the statement's own result in this execution
+    let reeval_ok = reeval_candidates(&sc.program);
     for t in &ex.threads {
         for it in &t.items {
             if let Role::Reeval(i) = it.role {
+                if !reeval_ok.contains(&i) {
+                    continue;
+                }
                 if let Some(first) = e.get(&i) {
                     if first.status == Status::Panic || it.status == Status::Panic || it.status == Status::NotRun || first.status == Status::NotRun {
                         continue;
@@ -333,6 +347,40 @@ fn is_frame_assignment_free(s: &Stmt) -> bool {
         }
         _ => false,
     }
+}
+
+/// Statements that may be evaluated a second time later in the session with the same result:
+/// assignment-free, and every program name they mention is bound by an EARLIER statement (a
+/// name that a later statement binds - late binding - legitimately changes the outcome).
+fn reeval_candidates(program: &[Stmt]) -> Vec<usize> {
+    let assigned_by: Vec<BTreeSet<String>> = program.iter().map(|s| stmt_frame(s).possible).collect();
+    let mut out = vec![];
+    for (i, s) in program.iter().enumerate() {
+        if !is_frame_assignment_free(s) {
+            continue;
+        }
+        let Stmt::Expr(e) = s else { continue };
+        let (free, _) = free_names(e);
+        let later: BTreeSet<&String> = assigned_by[i..].iter().flatten().collect();
+        let earlier: BTreeSet<&String> = assigned_by[..i].iter().flatten().collect();
+        if free.iter().all(|n| !later.contains(n) || earlier.contains(n)) {
+            out.push(i);
+        }
+    }
+    out
+}
+
+/// Noise for thread environments that keeps a thread inside built-ins for a long stretch: one
+/// statement that evaluates a built-in-heavy expression a few dozen times.
+fn hammer_item(rng: &mut Rng, k: usize) -> Item {
+    let mut r2 = rng.fork();
+    let mut g = PGen::new(&mut r2, "hm");
+    g.allow_depth_probe = false;
+    g.locals.push(("i".to_string(), T::Num));
+    let t = *rng.pick(&[T::Str, T::Str, T::Num, T::LNum, T::Bool, T::Rec]);
+    let body = g.expr(t, 2);
+    let name = format!("{}h", ["u", "v", "w", "y"][k % 4]);
+    Item::plain(Role::Noise, Stmt::Expr(assign(&name, bin("via", call(id("range"), vec![num(rng.range(8, 30))]), lam(&["i"], body)))))
 }
 
 fn gen_noise(rng: &mut Rng, k: usize, n: usize) -> Vec<Item> {
@@ -416,7 +464,7 @@ pub fn gen_envs(rng: &mut Rng, program: &[Stmt], inputs_json: &str) -> Vec<Scena
         threads,
         prefs,
     };
-    let prefs = |rng: &mut Rng| -> Vec<u8> { (0..64).map(|_| rng.below(8) as u8).collect() };
+    let prefs = |rng: &mut Rng| -> Vec<u8> { (0..251).map(|_| rng.below(8) as u8).collect() };
     // swarm: each run enables a random subset of environment kinds (at least two)
     let mut enabled: Vec<u32> = (0..9).filter(|_| rng.chance(1, 2)).collect();
     while enabled.len() < 2 {
@@ -451,7 +499,7 @@ pub fn gen_envs(rng: &mut Rng, program: &[Stmt], inputs_json: &str) -> Vec<Scena
                 }
                 // re-evaluation of P's own earlier pure expressions, as noise
                 let mut items = interleave(rng, p_items(program), noise);
-                let bare: Vec<usize> = program.iter().enumerate().filter(|(_, s)| is_frame_assignment_free(s)).map(|(i, _)| i).collect();
+                let bare: Vec<usize> = reeval_candidates(program);
                 if !bare.is_empty() && rng.chance(2, 3) {
                     let i = *rng.pick(&bare);
                     if let Some(pos) = items.iter().position(|it| it.role == Role::P(i)) {
@@ -485,8 +533,14 @@ pub fn gen_envs(rng: &mut Rng, program: &[Stmt], inputs_json: &str) -> Vec<Scena
                         // change points do not depend on any earlier execution (a point beyond
                         // the statement's last step simply never fires)
                         let i = rng.usize_below(p.len());
-                        let at = if rng.chance(1, 2) { 1 + rng.below(8) } else { 1 + rng.below(400) };
-                        p[i].yield_at.push(at);
+                        if rng.chance(1, 2) {
+                            let at = if rng.chance(1, 2) { 1 + rng.below(8) } else { 1 + rng.below(400) };
+                            p[i].yield_at.push(at);
+                        } else {
+                            // inside a built-in / comparison / stringification
+                            let at = if rng.chance(1, 2) { 1 + rng.below(12) } else { 1 + rng.below(300) };
+                            p[i].yield_heap_at.push(at);
+                        }
                         budget -= 1;
                     }
                 }
@@ -499,7 +553,14 @@ pub fn gen_envs(rng: &mut Rng, program: &[Stmt], inputs_json: &str) -> Vec<Scena
                             if rng.chance(1, 3) {
                                 it.yield_at.push(1 + rng.below(12));
                             }
+                            if rng.chance(1, 3) {
+                                it.yield_heap_at.push(1 + rng.below(40));
+                            }
                         }
+                    }
+                    if rng.chance(1, 2) {
+                        let pos = rng.usize_below(noise.len() + 1);
+                        noise.insert(pos, hammer_item(rng, j));
                     }
                     // the same program on another thread at the same time, too
                     let sessions = if rng.chance(1, 4) {
@@ -509,8 +570,46 @@ pub fn gen_envs(rng: &mut Rng, program: &[Stmt], inputs_json: &str) -> Vec<Scena
                     };
                     threads.push(ThreadPlan { hash_seed: rng.next_u64(), clock: gen_clock(rng), sessions });
                 }
+                // dense mode: every (or every n-th) hook point of every statement of every thread is
+                // a context switch opportunity; the preference list then walks a fine-grained
+                // interleaving (statements recursing hundreds of calls deep are left alone)
+                let dense = preempt && rng.chance(1, 3);
+                if dense {
+                    let every = *rng.pick(&[1u64, 1, 2, 3]);
+                    for t in threads.iter_mut() {
+                        for s in t.sessions.iter_mut() {
+                            for it in s.iter_mut() {
+                                let deep = matches!(&it.stmt, Stmt::Expr(E::Assign(_, v)) if matches!(&**v, E::Call(_, a) if a.len() == 1 && matches!(&a[0], E::Num(n) if n.len() >= 3)));
+                                if !deep {
+                                    it.yield_every = every;
+                                }
+                            }
+                        }
+                    }
+                }
                 rng.shuffle(&mut threads);
-                envs.push(base(if preempt { "threads-preemptive" } else { "threads" }, threads, prefs(rng)));
+                let pr = if dense {
+                    // long runs of one thread with few switches (a step-by-step coin flip almost
+                    // never lets one thread cross many steps while another is parked inside a
+                    // short window)
+                    let mean = *rng.pick(&[3u64, 8, 20, 50]);
+                    let mut v: Vec<u8> = vec![];
+                    while v.len() < 251 {
+                        let who = rng.below(8) as u8;
+                        let mut run = 1;
+                        while !rng.chance(1, mean) && run < 200 {
+                            run += 1;
+                        }
+                        for _ in 0..run {
+                            v.push(who);
+                        }
+                    }
+                    v.truncate(251);
+                    v
+                } else {
+                    prefs(rng)
+                };
+                envs.push(base(if dense { "threads-dense" } else if preempt { "threads-preemptive" } else { "threads" }, threads, pr));
             }
             8 => {
                 // the program alone, but in this long-lived process after everything it has
@@ -519,7 +618,7 @@ pub fn gen_envs(rng: &mut Rng, program: &[Stmt], inputs_json: &str) -> Vec<Scena
             }
             6 => {
                 // EvalTwice: consecutive and separated by noise
-                let bare: Vec<usize> = program.iter().enumerate().filter(|(_, s)| is_frame_assignment_free(s)).map(|(i, _)| i).collect();
+                let bare: Vec<usize> = reeval_candidates(program);
                 if bare.is_empty() {
                     continue;
                 }
@@ -787,6 +886,8 @@ pub fn shrink(sc: &Scenario, clause: &str) -> Scenario {
                 for s in t.sessions.iter_mut() {
                     for it in s.iter_mut() {
                         it.yield_at.clear();
+                        it.yield_heap_at.clear();
+                        it.yield_every = 0;
                     }
                 }
             }
